@@ -10,10 +10,11 @@ Proof. intros H. unfold rd_uint. now rewrite read_uint_le. Qed.
 Lemma rd_uint_len_app i r : i < 2 ^ 64 -> rd_uint_len (uint_len i ++ r) = Ok (i, r).
 Proof. intros H. unfold rd_uint_len. now rewrite uint_len_roundtrip. Qed.
 
-Lemma rd_str_len_app s r : len s < 2 ^ 64 -> rd_str_len (str_len s ++ r) = Ok (s, r).
+Lemma rd_str_len_app s r : len s < 2 ^ 63 -> rd_str_len (str_len s ++ r) = Ok (s, r).
 Proof.
-  intros H. unfold rd_str_len, str_len. rewrite <- app_assoc, rd_uint_len_app by assumption.
-  cbn [bind]. unfold rd_fixed. now rewrite take_app_exact, drop_app_exact.
+  intros H. unfold rd_str_len, str_len. rewrite <- app_assoc, rd_uint_len_app by (cbn in *; lia).
+  cbn [bind]. destruct (N.leb_spec (2 ^ 63) (len s)); [lia|].
+  unfold rd_fixed. now rewrite take_app_exact, drop_app_exact.
 Qed.
 
 Lemma rd_uint1_cons b r : rd_uint 1 (b :: r) = Ok (b, r).
@@ -81,7 +82,7 @@ Proof.
     rewrite <- Wl. now rewrite take_app_exact, drop_app_exact.
 Qed.
 
-Lemma wf_name p : wf_param p = true -> len (pm_name p) < 2 ^ 64 /\ is_column_type (pm_type p) = true.
+Lemma wf_name p : wf_param p = true -> len (pm_name p) < 2 ^ 63 /\ is_column_type (pm_type p) = true.
 Proof.
   unfold wf_param. intros W. apply andb_prop in W. destruct W as [W0 _].
   apply andb_prop in W0. destruct W0 as [Wt Wn]. apply N.ltb_lt in Wn. now split.
@@ -280,7 +281,7 @@ Qed.
 Lemma rd_str_len_shrinks d s r : rd_str_len d = Ok (s, r) -> len r < len d.
 Proof.
   unfold rd_str_len. destruct (rd_uint_len d) as [[l t]|] eqn:E; [|discriminate].
-  cbn [bind]. unfold rd_fixed. intros H; inversion H; subst.
+  cbn [bind]. destruct (2 ^ 63 <=? l); [discriminate|]. unfold rd_fixed. intros H; inversion H; subst.
   apply rd_uint_len_shrinks in E. rewrite len_drop. lia.
 Qed.
 
@@ -291,6 +292,14 @@ Proof.
   destruct (rd_uint 1 u) as [[f v]|] eqn:F; [|discriminate]. cbn [bind].
   intros H; inversion H; subst. apply rd_uint_shrinks in E. apply rd_uint_shrinks in F. lia.
 Qed.
+
+(* errors of the non-recursive readers are never OutOfFuel *)
+Lemma rd_uint_not_oof k d : rd_uint k d <> Err OutOfFuel.
+Proof. unfold rd_uint. destruct (read_uint k d) as [[? ?]|]; discriminate. Qed.
+Lemma rd_uint_len_not_oof d : rd_uint_len d <> Err OutOfFuel.
+Proof. unfold rd_uint_len. destruct (read_uint_len d) as [[? ?]|]; discriminate. Qed.
+Lemma rd_str_len_not_oof d : rd_str_len d <> Err OutOfFuel.
+Proof. unfold rd_str_len. pose proof (rd_uint_len_not_oof d). destruct (rd_uint_len d) as [[l ?]|e]; cbn [bind]; [destruct (2 ^ 63 <=? l); discriminate|congruence]. Qed.
 
 Theorem rd_types_total qa : forall fuel n d, (length d < fuel)%nat -> rd_types fuel qa n d <> Err OutOfFuel.
 Proof.
@@ -306,7 +315,7 @@ Proof.
   cbn [bind]. apply rd_param_type_shrinks in E.
   destruct qa.
   - destruct (rd_str_len r) as [[nm r2]|e] eqn:S.
-    2:{ cbn [bind]. unfold rd_str_len, rd_uint_len in S. destruct (read_uint_len r) as [[? ?]|]; cbn [bind] in S; inversion S. discriminate. }
+    2:{ cbn [bind]. pose proof (rd_str_len_not_oof r) as NO. rewrite S in NO. congruence. }
     cbn [bind]. apply rd_str_len_shrinks in S.
     specialize (IH (N.pred n) r2 ltac:(unfold len in *; lia)).
     destruct (rd_types f true (N.pred n) r2) as [[rest r3]|e]; cbn [bind]; [discriminate|]. congruence.
@@ -319,20 +328,12 @@ Proof.
   induction fuel as [|f IH]; intros total d acc Hf; [lia|].
   cbn [rd_attrs]. destruct (total <=? 0)%Z; [discriminate|].
   destruct (rd_str_len d) as [[k r]|e] eqn:K.
-  2:{ cbn [bind]. unfold rd_str_len, rd_uint_len in K. destruct (read_uint_len d) as [[? ?]|]; cbn [bind] in K; inversion K. discriminate. }
+  2:{ cbn [bind]. pose proof (rd_str_len_not_oof d) as NO. rewrite K in NO. congruence. }
   cbn [bind]. destruct (rd_str_len r) as [[v r2]|e] eqn:V.
-  2:{ cbn [bind]. unfold rd_str_len, rd_uint_len in V. destruct (read_uint_len r) as [[? ?]|]; cbn [bind] in V; inversion V. discriminate. }
+  2:{ cbn [bind]. pose proof (rd_str_len_not_oof r) as NO. rewrite V in NO. congruence. }
   cbn [bind]. apply rd_str_len_shrinks in K. apply rd_str_len_shrinks in V.
   apply IH. unfold len in *. lia.
 Qed.
-
-(* errors of the non-recursive readers are never OutOfFuel *)
-Lemma rd_uint_not_oof k d : rd_uint k d <> Err OutOfFuel.
-Proof. unfold rd_uint. destruct (read_uint k d) as [[? ?]|]; discriminate. Qed.
-Lemma rd_uint_len_not_oof d : rd_uint_len d <> Err OutOfFuel.
-Proof. unfold rd_uint_len. destruct (read_uint_len d) as [[? ?]|]; discriminate. Qed.
-Lemma rd_str_len_not_oof d : rd_str_len d <> Err OutOfFuel.
-Proof. unfold rd_str_len. pose proof (rd_uint_len_not_oof d). destruct (rd_uint_len d) as [[? ?]|e]; cbn [bind]; [discriminate|congruence]. Qed.
 
 Lemma rd_param_value_not_oof t u d : rd_param_value t u d <> Err OutOfFuel.
 Proof.
@@ -398,4 +399,73 @@ Proof.
   unfold rd_connect_attrs. pose proof (rd_uint_len_not_oof d).
   destruct (rd_uint_len d) as [[t r]|e]; cbn [bind]; [|congruence].
   apply rd_attrs_total. lia.
+Qed.
+
+Theorem parse_handshake_response_total cok sc mk d : parse_handshake_response cok sc mk d <> Err OutOfFuel.
+Proof.
+  unfold parse_handshake_response.
+  pose proof (rd_uint_not_oof 4 d). destruct (rd_uint 4 d) as [[cw r]|e]; cbn [bind]; [|congruence].
+  pose proof (rd_uint_not_oof 4 r). destruct (rd_uint 4 r) as [[mp r2]|e]; cbn [bind]; [|congruence].
+  pose proof (rd_uint_not_oof 1 r2). destruct (rd_uint 1 r2) as [[co r3]|e]; cbn [bind]; [|congruence].
+  destruct (negb (cok co)); [discriminate|]. unfold rd_fixed.
+  destruct (drop 23 r3) as [|b r4]; [discriminate|].
+  destruct (rd_str_null (b :: r4)) as [user r5].
+  set (c := mk (N.land sc cw)).
+  assert (A : forall X : result (bytes * bytes), X <> Err OutOfFuel ->
+      (do (auth, r6) <- X;
+       let '(db, r7) := if c_with_db c then let '(x, t) := rd_str_null r6 in (Some x, t) else (None, r6) in
+       let '(plugin, r8) := if c_plugin_auth c then let '(x, t) := rd_str_null r7 in (Some x, t) else (None, r7) in
+       do (attrs, r9) <- (if c_attrs c then rd_connect_attrs r8 else Ok ([], r8));
+       do (z, _) <- (if c_zstd c then rd_uint 1 r9 else Ok (0, r9));
+       Ok (HSR (N.land sc cw) mp co user auth db plugin attrs z)) <> Err OutOfFuel).
+  { intros X HX. destruct X as [[auth r6]|e]; cbn [bind]; [|congruence].
+    destruct (c_with_db c); [destruct (rd_str_null r6) as [x t]|];
+    (destruct (c_plugin_auth c); [match goal with |- context [rd_str_null ?q] => destruct (rd_str_null q) as [x2 t2] end|]);
+    (destruct (c_attrs c);
+      [match goal with |- context [rd_connect_attrs ?q] =>
+         pose proof (rd_connect_attrs_total q); destruct (rd_connect_attrs q) as [[at9 r9]|e]; cbn [bind]; [|congruence] end
+      | cbn [bind]]);
+    (destruct (c_zstd c);
+      [match goal with |- context [rd_uint 1 ?q] =>
+         pose proof (rd_uint_not_oof 1 q); destruct (rd_uint 1 q) as [[z9 r10]|e]; cbn [bind]; [discriminate|congruence] end
+      | cbn [bind]; discriminate]). }
+  destruct (c_lenenc_auth c).
+  - apply A. apply rd_str_len_not_oof.
+  - apply A. pose proof (rd_uint_not_oof 1 r5). destruct (rd_uint 1 r5) as [[l t]|e]; cbn [bind]; [discriminate|congruence].
+Qed.
+
+Theorem parse_com_change_user_total cok c d : parse_com_change_user cok c d <> Err OutOfFuel.
+Proof.
+  unfold parse_com_change_user. destruct (rd_str_null d) as [user r].
+  assert (A : forall X : result (bytes * bytes), X <> Err OutOfFuel ->
+      (do (auth, r2) <- X;
+       let '(db, r3) := rd_str_null r2 in
+       match r3 with
+       | [] => Ok (mk_chg user auth db None None [])
+       | _ :: _ =>
+         do (coll, r4) <- (if c_proto41 c then do (x, t) <- rd_uint 2 r3; if cok x then Ok (Some x, t) else Err ValueErr
+                           else Ok (None, r3));
+         let '(plugin, r5) := if c_plugin_auth c then let '(x, t) := rd_str_null r4 in (Some x, t) else (None, r4) in
+         do (attrs, _) <- (if c_attrs c then rd_connect_attrs r5 else Ok ([], r5));
+         Ok (mk_chg user auth db coll plugin attrs)
+       end) <> Err OutOfFuel).
+  { intros X HX. destruct X as [[auth r2]|e]; cbn [bind]; [|congruence].
+    destruct (rd_str_null r2) as [db r3]. destruct r3 as [|b r3]; [discriminate|].
+    destruct (c_proto41 c).
+    - pose proof (rd_uint_not_oof 2 (b :: r3)). destruct (rd_uint 2 (b :: r3)) as [[x t]|e]; cbn [bind]; [|congruence].
+      destruct (cok x); cbn [bind]; [|discriminate].
+      destruct (c_plugin_auth c); [destruct (rd_str_null t) as [x2 t2]|];
+      (destruct (c_attrs c);
+        [match goal with |- context [rd_connect_attrs ?q] =>
+           pose proof (rd_connect_attrs_total q); destruct (rd_connect_attrs q) as [[at9 r9]|e]; cbn [bind]; [discriminate|congruence] end
+        | cbn [bind]; discriminate]).
+    - cbn [bind].
+      destruct (c_plugin_auth c); [destruct (rd_str_null (b :: r3)) as [x2 t2]|];
+      (destruct (c_attrs c);
+        [match goal with |- context [rd_connect_attrs ?q] =>
+           pose proof (rd_connect_attrs_total q); destruct (rd_connect_attrs q) as [[at9 r9]|e]; cbn [bind]; [discriminate|congruence] end
+        | cbn [bind]; discriminate]). }
+  destruct (c_secure c).
+  - apply A. pose proof (rd_uint_not_oof 1 r). destruct (rd_uint 1 r) as [[l t]|e]; cbn [bind]; [discriminate|congruence].
+  - apply A. discriminate.
 Qed.
